@@ -14,7 +14,7 @@ meta = {
     'summary': m.get('summary'),
     'needs_to_manifest': m.get('needs'),
     'files_changed': m.get('files_changed'),
-    'author': 'independent sub-agent given only the property record and a scratch worktree of /repo at c69db8f',
+    'author': 'independent sub-agent given only the property record and a scratch worktree of /repo at ' + (sys.argv[5] if len(sys.argv) > 5 else 'c69db8f'),
     'confirmed_by_me': {
         'how': 'in the scratch worktree: cargo test --workspace --no-fail-fast --offline (existing suite) with the change; '
                'cargo test -p sv-parser --test seed_demo with the change (must fail) and with the patch reverse-applied (must pass)',
